@@ -209,6 +209,29 @@ def run(ctx: Ctx):
             ob = observe(comp)
             ctx.case(("rnd", repr(x)), True)
             judge(ctx, {"x": x}, ob, {"x": x, "cls": cls.__name__, "provider": prov}, ev=ev)
+        # coincident alarms: a relative alarm of a zoned / UTC component and an absolute alarm that first fire at the SAME
+        # instant, same REPEAT and DURATION, the repeats crossing the DST change -- sums computed for one alarm must not be
+        # reused for the other (equal instants in different zones are equal as dict keys)
+        for i, (kind, sm) in enumerate([("zoned", 600), ("zoned", 1380), ("zoned", 720), ("utc", 600), ("zoned", 0)]):
+            for d in (-90, 0, 30, -1440):
+                for rep, dur in ((2, 1440), (1, 600), (3, 60)):
+                    for order in (0, 1):
+                        prov = ("zoneinfo", "pytz")[(i + order) % 2]
+                        tzp.use(prov)
+                        utc_m = sm + d - (60 if kind == "zoned" else 0)
+                        if utc_m < 0:
+                            continue
+                        rel = {"trig": {"k": "rel", "d": d, "related": "START", "m": 0}, "repeat": rep, "dur": dur}
+                        ab = {"trig": {"k": "abs", "d": 0, "related": "", "m": utc_m}, "repeat": rep, "dur": dur}
+                        x = {"c": {"start": {"kind": kind, "m": sm}, "espec": {"k": "none", "v": {"kind": "none", "m": 0}, "d": 0}},
+                             "alarms": [rel, ab] if order == 0 else [ab, rel]}
+                        for cls in (Event, Todo):
+                            comp, _ = build(cls, x["c"], x["alarms"])
+                            if order:
+                                comp = cls.from_ical(comp.to_ical())
+                            ob = observe(comp)
+                            ctx.case(("coincident", repr(x), cls.__name__), True)
+                            judge(ctx, {"x": x}, ob, {"x": x, "cls": cls.__name__, "provider": prov, "coincident": True}, ev=ev)
     finally:
         tzp.use_default()
     events = [{"x": e["x"], "times": e["times"]} for e in ev]
